@@ -20,7 +20,7 @@ func init() { register(c03{}) }
 
 func (c03) ID() string { return "C03" }
 func (c03) Rule() string {
-	return "systematic: every location of gen.Universe(L<=5|6, arity<=3) as the single labelled feature (keys gene and source) x every Delete/Erase (i,n) with 0<=i, i+n<=L and every Slice window (s,e) in [-L,L]^2 incl. negative spellings and wrap-around (empty windows excluded; ambiguous spans and full-length parts excluded for wrap-around); seeded: lengths<=60, tables<=8 features incl. source features, BasicSequence and seqio.GenBank hosts, GenBank hosts carry generated REFERENCE '(bases a to b; c to d)' lines whose expected clipping is computed by interval arithmetic. Oracle: residues per the window arithmetic; surviving features' base atoms == before minus removed in order and strand; cut ends open (all markers stripped on source after Slice), uncut ends keep their marker (markers on a junction of two abutting expected parts are don't-care); Delete: a feature that lost everything consists of sites at the cut; Erase: it is absent unless source; Slice: features with no base in the window are absent (a feature with a site inside the window is don't-care); coordinates within [0,newlen]; slice is linear; references clipped, re-based, dropped, renumbered. non-trivial: some feature shares a residue with the removed/kept boundary region; distinct: canonical case text. CLI layer: gts delete [-e], gts extract [-v] and gts split of the real binary (--no-cache) on generated records and the corpus record, single and as streams, judged by the C15 models (residues minus the union of the located regions; one record per distinct region, with -v the maximal unlocated stretches; pieces concatenate to the input; a stream's output equals the outputs of its records alone). A third of the GenBank hosts are AA records (REFERENCE lines count residues); a site-only feature that lies clear of the erased stretch must survive Erase. Ambiguous spans take part in wrap-around slices unless the window cuts them."
+	return "systematic: every location of gen.Universe(L<=5|6, arity<=3) as the single labelled feature (keys gene and source) x every Delete/Erase (i,n) with 0<=i, i+n<=L and every Slice window (s,e) in [-L,L]^2 incl. negative spellings and wrap-around (empty windows excluded; ambiguous spans and full-length parts excluded for wrap-around); seeded: lengths<=60, tables<=8 features incl. source features, BasicSequence and seqio.GenBank hosts, GenBank hosts carry generated REFERENCE '(bases a to b; c to d)' lines whose expected clipping is computed by interval arithmetic. Oracle: residues per the window arithmetic; surviving features' base atoms == before minus removed in order and strand; cut ends open (all markers stripped on source after Slice), uncut ends keep their marker (markers on a junction of two abutting expected parts are don't-care); Delete: a feature that lost everything consists of sites at the cut; Erase: it is absent unless source; Slice: features with no base in the window are absent (a feature with a site inside the window is don't-care); coordinates within [0,newlen]; slice is linear; references clipped, re-based, dropped, renumbered. non-trivial: some feature shares a residue with the removed/kept boundary region; distinct: canonical case text. CLI layer: gts delete [-e], gts extract [-v] and gts split of the real binary (--no-cache) on generated records and the corpus record, single and as streams, judged by the C15 models (residues minus the union of the located regions; one record per distinct region, with -v the maximal unlocated stretches; pieces concatenate to the input; a stream's output equals the outputs of its records alone). A third of the GenBank hosts are AA records (REFERENCE lines count residues); a site-only feature that lies clear of the erased stretch must survive Erase. Ambiguous spans take part in wrap-around slices unless the window cuts them. A feature made of sites strictly inside a forward window must survive Slice."
 }
 func (c03) RequiredBuckets(tier string) []string {
 	var out []string
@@ -32,7 +32,7 @@ func (c03) RequiredBuckets(tier string) []string {
 			out = append(out, op+"|rel:"+a)
 		}
 	}
-	out = append(out, "Slice|wrap", "Slice|negative", "Slice|forward", "Slice|refs", "Slice|of-a-slice", "Slice|source-feature", "Slice|host:genbank", "Slice|refs-of-a-protein-record", "Erase|site-only-feature-clear-of-the-region")
+	out = append(out, "Slice|wrap", "Slice|negative", "Slice|forward", "Slice|refs", "Slice|of-a-slice", "Slice|source-feature", "Slice|host:genbank", "Slice|refs-of-a-protein-record", "Erase|site-only-feature-clear-of-the-region", "Slice|site-only-feature-strictly-inside-the-window")
 	out = append(out, "cmd:delete", "cmd:delete -e", "cmd:extract", "cmd:extract -v", "cmd:split", "stream:records-independent", "cache-on:after-sibling")
 	return out
 }
@@ -310,6 +310,21 @@ func (m c03) check(c *fw.Ctx, k *delCase) {
 				}
 				if wrap {
 					mustAbsent = false
+				}
+				// a feature made of sites only, every site strictly inside a
+				// forward window (not on its edges): it overlaps the window and
+				// lost nothing, so it is still there.
+				if !wrap && baseCount(before) == 0 && len(before) > 0 {
+					inside := true
+					for _, q := range before {
+						if q.Kind != model.KSite || q.Lo <= s || q.Lo >= e {
+							inside = false
+						}
+					}
+					if inside {
+						mustPresent = true
+						c.Bucket("Slice|site-only-feature-strictly-inside-the-window")
+					}
 				}
 			}
 		}
